@@ -206,7 +206,7 @@ type asyncTypedListener[E boltz.Entity] struct{ typedListener[E] }
 
 func (l *asyncTypedListener[E]) HandleEntityEvent(e E) {
 	defer l.r.s.AsyncDone()
-	l.r.s.AsyncEnter(fmt.Sprintf("async:%s:%s:%s:%s", l.kind, l.store, l.typ, e.GetId()))
+	l.r.s.AsyncEnter(fmt.Sprintf("async:%s:%s:%s:%s", l.kind, l.store, l.typ, safeId(l.store, e)))
 	l.typedListener.HandleEntityEvent(e)
 }
 
@@ -268,7 +268,7 @@ func registerListeners[E boltz.Entity](r *Run, name string, store boltz.EntitySt
 		store.AddEntityEventListener(&typedListener[E]{r: r, store: name, typ: typ}, sync)
 		store.AddEntityEventListenerF(func(e E) {
 			defer r.s.AsyncDone()
-			r.s.AsyncEnter(fmt.Sprintf("async:L2:%s:%s:%s", name, typ, e.GetId()))
+			r.s.AsyncEnter(fmt.Sprintf("async:L2:%s:%s:%s", name, typ, safeId(name, e)))
 			r.recordEvent("L2", name, typ, e)
 		}, async)
 		store.AddListener(func(e boltz.Entity) {
@@ -282,11 +282,7 @@ func registerListeners[E boltz.Entity](r *Run, name string, store boltz.EntitySt
 		}, sync)
 		store.AddListener(func(e boltz.Entity) {
 			defer r.s.AsyncDone()
-			id := ""
-			if snapEntity(name, e) != "<nil>" {
-				id = e.GetId()
-			}
-			r.s.AsyncEnter(fmt.Sprintf("async:L14:%s:%s:%s", name, typ, id))
+			r.s.AsyncEnter(fmt.Sprintf("async:L14:%s:%s:%s", name, typ, safeId(name, e)))
 			r.recordEvent("L14", name, typ, e)
 		}, async)
 	}
@@ -303,7 +299,7 @@ func registerListeners[E boltz.Entity](r *Run, name string, store boltz.EntitySt
 	store.AddEntityEventListener(&typedListener[E]{r: r, store: name, typ: "*", kind: "L9"}, boltz.EntityUpdated, boltz.EntityDeleted, boltz.EntityCreated)
 	store.AddEntityEventListenerF(func(e E) {
 		defer r.s.AsyncDone()
-		r.s.AsyncEnter(fmt.Sprintf("async:L10:%s:%s", name, e.GetId()))
+		r.s.AsyncEnter(fmt.Sprintf("async:L10:%s:%s", name, safeId(name, e)))
 		r.recordEvent("L10", name, "*", e)
 	}, boltz.EntityCreatedAsync, boltz.EntityDeletedAsync, boltz.EntityUpdatedAsync)
 	store.AddEntityConstraint(&typedConstraint[E]{r: r, store: name})
@@ -377,4 +373,13 @@ func (r *Run) lateListen(tag string, op Op, btx int) {
 	case 2:
 		store.AddUntypedEntityConstraint(&lateConstraint{r: r, tag: tag, st: name})
 	}
+}
+
+// safeId: the id of the entity handed to a listener, "" if the library handed over a nil entity (that is a wrong
+// event, recorded as such - not a reason for the listener to crash).
+func safeId(store string, e boltz.Entity) string {
+	if snapEntity(store, e) == "<nil>" {
+		return ""
+	}
+	return e.GetId()
 }
